@@ -265,7 +265,68 @@ def suite_hist(p, rng, depth=2, sample=None):
         out.append(case("h%d" % i, p, ops))
     return out
 
+def suite_win(p, rng):
+    """every partial entry point of the panel with every boundary window (and a few PRNG windows) that is 8-aligned
+    and inside the panel, on a fresh driver and after one other partial update - for the run-time oracle"""
+    import gen_specs
+    bad = gen_specs.UNIMPL.get(p.name, [])
+    V = op_variants(p, False)
+    ws = [w for w in windows(p) if w[0] % 8 == 0 and w[2] % 8 == 0 and w[2] > 0 and w[3] > 0 and w[0] + w[2] <= p.W and w[1] + w[3] <= p.H]
+    W8 = (p.W // 8) * 8
+    for _ in range(6):
+        w = 8 * (1 + rng.below(max(1, min(8, W8 // 8))))
+        x = 8 * rng.below((W8 - w) // 8 + 1)
+        h = 1 + rng.below(min(24, p.H))
+        y = rng.below(p.H - h + 1)
+        ws.append((x, y, w, h))
+    if p.H > 300:
+        ws.append((8, 500 if p.H > 520 else p.H - 20, 16, 12))
+    out = []
+    i = 0
+    def win_op(name, w, seed):
+        x, y, ww, h = w
+        if name in ('clear_partial_frame', 'display_partial_frame'):
+            return [name, str(x), str(y), str(ww), str(h)]
+        return [name, buf(wlen(ww, h), 'r', seed), str(x), str(y), str(ww), str(h)]
+    names = [n for n in WINDOWED if n in V and n not in bad and n != 'shift_display']
+    if p.name in ('epd2in13bc', 'epd2in9bc'):
+        names = []
+    for n in names:
+        for k, w in enumerate(ws):
+            if n == 'update_partial_new_frame':
+                continue
+            ops = [['new']]
+            if k % 2 == 1:
+                ops.append(win_op(n, ws[0], 40) if n != 'update_partial_old_frame' else win_op('clear_partial_frame', ws[0], 40))
+            if n == 'update_partial_old_frame':
+                ops += [win_op(n, w, 41 + k), win_op('update_partial_new_frame', w, 141 + k)]
+            else:
+                ops.append(win_op(n, w, 41 + k))
+            ops += [['display_frame']]
+            out.append(case("w%d" % i, p, ops))
+            i += 1
+    return out
+
+def suite_pair(p, rng, cap=450):
+    """new; A; B for every ordered pair of macro steps of the panel's alphabet (no probe): the transitions the Coq
+    verdict quantifies over at depth 1, on the real crate"""
+    import gen_specs
+    M = gen_specs.macros(p)
+    pairs = [(a, b) for a in range(len(M)) for b in range(len(M))]
+    if len(pairs) > cap:
+        step = len(pairs) / float(cap)
+        off = rng.below(max(1, int(step)))
+        pairs = [pairs[min(len(pairs) - 1, int(i * step) + off)] for i in range(cap)]
+    out = []
+    for i, (a, b) in enumerate(pairs):
+        out.append(case("q%d" % i, p, [['new']] + M[a] + M[b]))
+    return out
+
 def suite(p, name, rng):
+    if name == 'win':
+        return suite_win(p, rng)
+    if name == 'pair':
+        return suite_pair(p, rng)
     if name == 'hist1':
         return suite_hist(p, rng, depth=1)
     if name == 'hist2':
